@@ -466,17 +466,9 @@ func storeGuards(c *Ctx) {
 		ast.Inspect(cond, func(n ast.Node) bool {
 			switch x := n.(type) {
 			case *ast.BinaryExpr:
-				if x.Op == token.EQL {
-					if v, ok := constOf(d.pkg, x.Y); ok && v.isStr() && v.str() == "" {
-						if sel, ok := x.X.(*ast.SelectorExpr); ok && sel.Sel.Name == "Id" {
-							hasID = true
-						}
-						if ce, ok := x.X.(*ast.CallExpr); ok {
-							if sel, ok := ce.Fun.(*ast.SelectorExpr); ok && sel.Sel.Name == "GetId" {
-								hasID = true
-							}
-						}
-					}
+				// `x.Id == ""`, `"" == x.GetId()`, `len(x.Id) == 0`: any spelling of "the identifier is empty"
+				if subj, empty, ok := emptinessTest(c, x); ok && empty && (strings.HasSuffix(subj, ".Id") || subj == "Id") {
+					hasID = true
 				}
 			case *ast.SelectorExpr:
 				if x.Sel.Name == "NoClobber" {
